@@ -4,6 +4,7 @@
 From RcProxy Require Import Base.Bytes Base.Dec Gen.Generated Spec.RespGrammar
   Model.RespBuf Model.Commands Model.Crc16 Model.ClientCodec Model.ClientFeed
   Proofs.ClientCodecProofs Proofs.FeedProofs Proofs.ClassifyProofs Proofs.GrammarProofs.
+From RcProxy Require Model.ServerCodec Model.Proxy Proofs.ProxyProofs Props.C01 Props.C09.
 Open Scope N_scope.
 
 (* (a) whatever bytes arrive, the decoder never produces the (nil, nil) result that kills the
@@ -59,3 +60,25 @@ Proof.
   repeat split; try (vm_compute; reflexivity).
   apply strict_none_not_accepted. vm_compute. reflexivity.
 Qed.
+
+(* event-loop side: nothing a node answers to a CLIENT's request can stop the proxy - not even the
+   authentication errors, which a script can make a node say at will (EVAL "return
+   redis.error_reply('NOAUTH ...')").  Such an answer is fatal only where it answers the proxy's own
+   commands: the handshake (connection still initializing) or the topology probe.  (A genuine defect
+   was repaired here: any -NOAUTH / -ERR invalid password reply used to shut the proxy down.) *)
+Theorem C12_client_reply_never_shuts_down : forall st s sv mid slot inq' ty rsp,
+  Proxy.lookup s (Proxy.servers st) = Some sv -> Proxy.ps_inq sv = Proxy.FReq mid slot :: inq' ->
+  Proxy.ps_initializing sv = false ->
+  Proxy.on_reply st s ty rsp <> Proxy.RShutdown.
+Proof. exact ProxyProofs.client_reply_never_shuts_down. Qed.
+Print Assumptions C12_client_reply_never_shuts_down.
+
+Example C12_scripted_auth_error_is_handed_on :
+  let evs := [Proxy.EConnect 0 true; Proxy.EConnect 1 true;
+              Proxy.EClientData 0 (enc_request [bs "get"; bs "a"]) []; Proxy.ETasks [];
+              Proxy.EServerData 0 (bs "-NOAUTH Authentication required." ++ crlf);
+              Proxy.EClientData 1 (enc_request [bs "get"; bs "a"]) []; Proxy.ETasks [];
+              Proxy.EServerData 0 (enc_bulk (bs "A"))] in
+  C01.w_got (Proxy.run (Proxy.init_state C01.w_cfg C09.w2_pools C09.w2_slots) evs) 0 = bs "-NOAUTH Authentication required." ++ crlf /\
+  C01.w_got (Proxy.run (Proxy.init_state C01.w_cfg C09.w2_pools C09.w2_slots) evs) 1 = enc_bulk (bs "A").
+Proof. cbv zeta. split; vm_compute; reflexivity. Qed.
